@@ -16,7 +16,8 @@ def run(tier):
     total = 0
     for cfg in cfgs:
         cases = os.path.join(wd, cfg + ".cases.ndjson")
-        mc = tlc_mc("MC_Tokenizer", cfg, wd, workers=8, cases_out=cases, timeout=6000, xmx="12g", coverage=False)
+        # (the input sets of the thorough tier have more than TLC's default bound of 1 000 000 elements)
+        mc = tlc_mc("MC_Tokenizer", cfg, wd, workers=8, cases_out=cases, timeout=6000, xmx="12g", coverage=False, extra=["-maxSetSize", "4000000"])
         c.add_mc(mc)
         total += mc["replays"]
         trace = os.path.join(wd, cfg + ".trace.ndjson")
